@@ -18,6 +18,11 @@ R_cont == << [parent |-> 0, rk |-> "{}/{g=\"1\"}", sel |-> "G1", cont |-> TRUE, 
 R_nest == << [parent |-> 0, rk |-> "{}/{g=\"1\"}", sel |-> "G1", cont |-> TRUE, recv |-> "r1", gby |-> "g", gw |-> 0, gi |-> 2, ri |-> 3, mute |-> NoIv, active |-> NoIv],
              [parent |-> 1, rk |-> "{}/{g=\"1\"}/{a=\"x\"}", sel |-> "AX", cont |-> FALSE, recv |-> "", gby |-> "none", gw |-> 0 - 1, gi |-> 0 - 1, ri |-> 0 - 1, mute |-> NoIv, active |-> NoIv],
              [parent |-> 0, rk |-> "{}/{alertname=~\".+\"}", sel |-> "ALL", cont |-> FALSE, recv |-> "", gby |-> "", gw |-> 1, gi |-> 3, ri |-> 4, mute |-> NoIv, active |-> NoIv] >>
+\* a catch-all child that is muted during [3, 6) and, in the second variant, active only during [0, 4)
+R_mute == << [parent |-> 0, rk |-> "{}/{alertname=~\".+\"}", sel |-> "ALL", cont |-> FALSE, recv |-> "", gby |-> "", gw |-> 0 - 1, gi |-> 0 - 1, ri |-> 0 - 1,
+              mute |-> << [name |-> "m1", from |-> 3, to |-> 6] >>, active |-> NoIv] >>
+R_active == << [parent |-> 0, rk |-> "{}/{alertname=~\".+\"}", sel |-> "ALL", cont |-> FALSE, recv |-> "", gby |-> "", gw |-> 0 - 1, gi |-> 0 - 1, ri |-> 0 - 1,
+              mute |-> NoIv, active |-> << [name |-> "a1", from |-> 0, to |-> 4] >>] >>
 R_first == << [parent |-> 0, rk |-> "{}/{sev=\"crit\"}", sel |-> "CRIT", cont |-> FALSE, recv |-> "r1", gby |-> "g", gw |-> 2, gi |-> 2, ri |-> 4, mute |-> NoIv, active |-> NoIv] >>
 \* observation-only variables are hidden: none here (the monitor state is part of the judgement)
 =============================================================================
